@@ -153,7 +153,7 @@ func genCli(repo string) (string, error) {
 		}
 		return true
 	})
-	// suffix format in injectSuffixIntoPath: path.Join(dir, name+"_%v"+ext)
+	// suffix format in injectSuffixIntoPath: the string literal of its return statement, path.Join(dir, name+"_%v"+ext)
 	suffix := ""
 	for _, d := range mainF.Decls {
 		fd, ok := d.(*ast.FuncDecl)
@@ -161,12 +161,19 @@ func genCli(repo string) (string, error) {
 			continue
 		}
 		ast.Inspect(fd, func(n ast.Node) bool {
-			if bl, ok := n.(*ast.BasicLit); ok && bl.Kind == token.STRING {
-				if s, err := strconv.Unquote(bl.Value); err == nil && strings.Contains(s, "%") {
-					suffix = s
-				}
+			rs, ok := n.(*ast.ReturnStmt)
+			if !ok {
+				return true
 			}
-			return true
+			ast.Inspect(rs, func(m ast.Node) bool {
+				if bl, ok := m.(*ast.BasicLit); ok && bl.Kind == token.STRING {
+					if s, err := strconv.Unquote(bl.Value); err == nil && strings.Contains(s, "%") {
+						suffix = s
+					}
+				}
+				return true
+			})
+			return false
 		})
 	}
 	// deepest id = slices.Max(ids), used for DeviationStats / FromTileMatrixSet
@@ -216,12 +223,14 @@ func genCli(repo string) (string, error) {
 	vMax, vQuadFirst := maxThenUse(mainF, "validateTileMatrixSet", "tileMatrixIDs", "DeviationStats")
 	sMax, _ := maxThenUse(snapF, "SnapPolygon", "tmIDs", "FromTileMatrixSet")
 
-	// injectSuffixIntoPath must have exactly the shape the model Cli/Model.v transcribes:
-	//   dir, file := path.Split(p); ext := path.Ext(file); name := file[:len(file)-len(ext)]; return path.Join(dir, name+FORMAT+ext)
+	// injectSuffixIntoPath must have exactly the shape the model Cli/Model.v transcribes (since the repair F21 with the
+	// escaping of percent signs in front: the result is a format):
+	//   p = strings.ReplaceAll(p, "%", "%%"); dir, file := path.Split(p); ext := path.Ext(file);
+	//   name := file[:len(file)-len(ext)]; return path.Join(dir, name+FORMAT+ext)
 	injectShape := false
 	for _, d := range mainF.Decls {
 		fd, ok := d.(*ast.FuncDecl)
-		if !ok || fd.Name.Name != "injectSuffixIntoPath" || len(fd.Body.List) != 4 {
+		if !ok || fd.Name.Name != "injectSuffixIntoPath" || len(fd.Body.List) != 5 {
 			continue
 		}
 		src := func(n ast.Node) string {
@@ -230,6 +239,7 @@ func genCli(repo string) (string, error) {
 			return strings.Join(strings.Fields(sb.String()), " ")
 		}
 		want := []string{
+			`p = strings.ReplaceAll(p, "%", "%%")`,
 			"dir, file := path.Split(p)",
 			"ext := path.Ext(file)",
 			"name := file[:len(file)-len(ext)]",
